@@ -15,6 +15,7 @@ def step (line : String) : String :=
   | "req" :: args => runReq args
   | "showreq" :: args => runShowReq args
   | "unnamed" :: args => runUnnamed args
+  | "showunnamed" :: args => runShowUnnamed args
   | "errdisp" :: args => runErrDisp args
   | "dnf" :: args => runDnf args
   | "iand" :: args => runIand args
